@@ -456,6 +456,10 @@ def gate_matrix():
         out += [("str", "s", u), ("str", "z", u)]
         if cp < 256:
             out += [("str", "b", bytes([cp])), ("str", "z", bytes([cp]))]
+    # lengths around the powers of two (fixed-size scratch buffers) in every string kind
+    for n in (7, 8, 9, 15, 16, 17, 31, 32, 33, 62, 63, 64, 65, 66, 127, 128, 129, 254, 255, 256, 257, 511, 512, 513, 1023, 1024, 1025):
+        body = bytes(97 + (i * 7 + n) % 26 for i in range(n))
+        out += [("str", "s", body), ("str", "z", body), ("str", "b", body), ("bytes", "a", body), ("str", "s", ("\u00e9" * n).encode()[:n - n % 2])]
     out += [("class", b"100%", b"%d"), ("class", b"%s", b"a%vb"), ("call", b"%d", b"%s", [("int", "i", 1)]), ("ref", ("str", "s", b"id%d%s")),
             ("ref", ("str", "s", b"100%")), ("struct", [(b"A", b"t%d", ("int", "i", 1))]),
             ("class", b"decimal", b"Decimal"), ("class", b"a\nb", b"C"), ("class", b"m", b"x\ny"), ("class", b"", b""),
